@@ -14,7 +14,9 @@ from valida.schema import Schema
 
 warnings.simplefilter("ignore")
 
-CASTS = {"bool": ("bool", casting.cast_string_to_bool), "int": ("int", int)}
+# the cast functions a rule read from a spec / YAML file gets for `cast: {str: bool}` / `{str: int}`: the library's
+# own table (at the audited baseline these are `cast_string_to_bool` and the builtin `int`)
+CASTS = {"bool": ("bool", casting.CAST_LOOKUP[(str, bool)]), "int": ("int", casting.CAST_LOOKUP[(str, int)])}
 
 
 # rule recipe: {"parts": [part recipes], "cond": tree, "cast": ["bool", "int"] subset in order}
@@ -58,7 +60,7 @@ def rule_py(rr):
     parts = ", ".join(terms.part_py(p) for p in rr["parts"])
     cast = ""
     if rr["cast"]:
-        names = {"bool": "cast_string_to_bool", "int": "int"}
+        names = {"bool": "CAST_LOOKUP[(str, bool)]", "int": "CAST_LOOKUP[(str, int)]"}
         fn = names[rr["cast"][0]]
         extra = f"pathlib.Path: {names[rr['cast'][1]]}, " if len(rr["cast"]) > 1 else ""
         cast = f", cast={{{extra}str: {fn}}}"
@@ -70,7 +72,7 @@ def rule_desc(rr):
 
 
 PY_HEAD = ("from valida.conditions import *\nfrom valida.datapath import *\nfrom valida.rules import Rule\n"
-           "from valida.schema import Schema\nfrom valida.casting import cast_string_to_bool\nimport pathlib\n")
+           "from valida.schema import Schema\nfrom valida.casting import cast_string_to_bool, CAST_LOOKUP\nimport pathlib\n")
 
 
 def obs_rule_test(rt):
